@@ -357,9 +357,9 @@ HARNESSES = [
             tiers=dict(quick=dict(budget_s=200, parts=16, params={}), thorough=dict(budget_s=1200, parts=16, params={})),
             encoded=_ENC,
             bounds='2 registry flavours x 9 entry points (lookup, lookup1, queryAdapter, adapter_hook, lookupAll, names, subscriptions, '
-                   'queryMultiAdapter, subscribers) x 10 callback points (overridden _uncached_* before / after computing, lazy `required` '
+                   'queryMultiAdapter, subscribers) x 14 callback points (overridden _uncached_* before / after computing, lazy `required` '
                    'sequence, __providedBy__ descriptor, factory, __hash__ of the provided key, __hash__ of a str-subclass name, __eq__ of a '
-                   'required key, destructor of a cached value run while the caches are released, unhashable-provided error path) x 6 '
+                   'required key, destructor of a cached value run while the caches are released, destructor of a replaced factory repeating the lookup from inside changed(), unhashable-provided and raising-uncached error paths, a super subclass computing __self__, a base registry computing _generation) x 6 '
                    'mutations (more specific registration, unregistration, subscription, changed() alone, registry __bases__, registration + '
                    're-entrant lookup) x 3 cache temperatures; both builds, each in its own process',
             outside='free-threaded (no-GIL) builds; allocation failure; more than one interruption per call; crashes inside CPython itself',
